@@ -118,6 +118,17 @@ def gen_spec(rng, profile):
         'oracles': list(profile['oracles']),
         'fs': {'write_through': rng.random() < 0.6, 'short_reads': rng.random() < profile.get('short_reads', 0.0)},
     }
+    if rng.random() < profile.get('more_runs', 0.0) and len(wl['header']) >= 2:
+        # a long-lived interpreter runs a second task on the same data: another label column, maybe another heuristic / batch size
+        other_cols = [h for h in wl['header'] if h != wl['label']]
+        c2 = {'label_column': rng.choice(other_cols + [wl['label']])}
+        if rng.random() < 0.4:
+            c2['heuristic'] = rng.choice(profile.get('heuristics', ['MI-numba-randomized']))
+        if rng.random() < 0.3:
+            c2['minibatch_size'] = max(1, m // 2)
+        if rng.random() < 0.3:
+            c2['target_ranking_only'] = rng.choice(['True', 'False'])
+        spec['more_runs'] = [{'cli': c2}]
     if profile.get('post'):
         profile['post'](rng, spec)
     if rng.random() < profile.get('poison', 0.3):
@@ -173,23 +184,47 @@ def classify_phase(prop, spec, ph, crashed_expected=False):
     task = cli.get('task', 'ranking')
     if st == 'stuck':
         return [], other, f"simulator stuck: {v.get('error')}"
-    if st == 'exception':
-        tr = v.get('trace', '')
-        benign = (cli.get('heuristic') == 'Constant' or task != 'ranking') and 'FileNotFoundError' in tr and "ranking_checkpoint_tmp.tsv" in tr and 'os.remove' in tr
+    def exception_verdict(vv, task_, heuristic_, where=''):
+        tr = vv.get('trace', '')
+        benign = (heuristic_ == 'Constant' or task_ != 'ranking') and 'FileNotFoundError' in tr and "ranking_checkpoint_tmp.tsv" in tr and 'os.remove' in tr
         frames = [l for l in tr.split('Traceback')[-1].splitlines() if l.strip().startswith('File "')]
         # an exception whose innermost frame is monitor / oracle code is a harness defect; the seams (sim/fs.py, sim/pool.py)
         # pass real errors of the wrapped calls through, those belong to the code under test
         harness = bool(frames) and any(x in frames[-1] for x in (os.sep + os.path.join('sim', 'engines') + os.sep, os.sep + os.path.join('sim', 'refmodel') + os.sep))
         if harness:
-            return [], other, 'exception inside the harness: ' + tr[-800:]
+            return 'harness', 'exception inside the harness: ' + tr[-800:]
         # C05/C06/C07 speak about what every mini-batch emits: an exception raised after the streaming phase
         # (3MR post-processing, summaries) is outside their statements and only counted
-        downstream = (prop in ('C05', 'C06', 'C07') and v.get('stream_returned')) or \
-            (prop == 'C13' and task == 'identify_rare_values' and v.get('rare_report_ok'))   # report complete and exact; the later sparsity summary is outside the statement
+        downstream = (prop in ('C05', 'C06', 'C07') and vv.get('stream_returned')) or \
+            (prop == 'C13' and task_ == 'identify_rare_values' and vv.get('rare_report_ok'))   # report complete and exact; the later sparsity summary is outside the statement
         if downstream:
             other['downstream-exception:' + exception_key(tr)[:80]] = 1
         elif not benign:
-            vio.append(('task-exception', exception_key(tr), {'trace': tr[-1200:]}))
+            vio.append(('task-exception', exception_key(tr), {'trace': tr[-1200:], 'task_number_in_process': where or 1}))
+        return None, None
+
+    if st == 'exception':
+        k, msg = exception_verdict(v, task, cli.get('heuristic'))
+        if k == 'harness':
+            return [], other, msg
+    for li, lv in enumerate(v.get('later_runs') or [], start=2):
+        c2 = dict(cli)
+        c2.update(lv.get('cli') or {})
+        if lv.get('status') == 'stuck':
+            return [], other, f"simulator stuck in task {li}: {lv.get('error')}"
+        if 'final_check_error' in lv:
+            return [], other, 'final checks failed: ' + lv['final_check_error']
+        if lv.get('status') == 'exception':
+            k, msg = exception_verdict(lv, c2.get('task', 'ranking'), c2.get('heuristic'), where=li)
+            if k == 'harness':
+                return [], other, msg
+        if lv.get('status') == 'exit' and c2.get('task', 'ranking') == 'ranking' and lv.get('expected_batches', 0) > 0:
+            vio.append(('unexpected-exit', 'exit', {'task_number_in_process': li, 'expected_batches': lv.get('expected_batches')}))
+        for x in lv.get('violations', []):
+            if x['property'] == prop:
+                vio.append((x['class'], x['class'], x['detail']))
+            else:
+                other[x['property']] = other.get(x['property'], 0) + 1
     if st == 'exit' and task == 'ranking' and v.get('expected_batches', 0) > 0:
         vio.append(('unexpected-exit', 'exit', {'exit_code': v.get('exit_code'), 'expected_batches': v.get('expected_batches')}))
     if st == 'crashed-unwound':
@@ -298,6 +333,10 @@ def shrink_candidates(spec, rng=None):
         s = copy.deepcopy(spec)
         s.pop('poison')
         out.append(s)
+    if spec.get('more_runs'):
+        s = copy.deepcopy(spec)
+        s.pop('more_runs')
+        out.append(s)
     if spec.get('fs', {}).get('short_reads'):
         s = copy.deepcopy(spec)
         s['fs']['short_reads'] = False
@@ -337,7 +376,8 @@ def shrink(pool, spec, fails_many, rounds=30, max_cands=160, wall=45.0):
 def spec_summary(spec):
     wl = spec['workload']
     return {'rows': len(wl['lines']), 'columns': wl['header'], 'label': wl['label'], 'cli': spec['cli'], 'service_mode': spec.get('service_mode'),
-            'poison': (spec.get('poison') or {}).get('name'), 'fs': spec.get('fs'), 'first_lines': wl['lines'][:3], 'phases': spec.get('phases')}
+            'poison': (spec.get('poison') or {}).get('name'), 'fs': spec.get('fs'), 'first_lines': wl['lines'][:3], 'phases': spec.get('phases'),
+            'further_tasks_in_same_process': [m.get('cli') for m in spec.get('more_runs') or []]}
 
 
 # ------------------------------------------------------------------------------------ generic runner
@@ -378,6 +418,10 @@ def record_run(rep, spec, v):
             rep.add_counts(rep.probes, {'tail_batch_dropped_at_threshold': 1})
     if v.get('skipped'):
         rep.add_counts(rep.probes, {'malformed_rows_skipped': 1})
+    if v.get('later_runs'):
+        rep.add_counts(rep.fault_counts, {'second_task_in_same_process': len(v['later_runs'])})
+        for lv in v['later_runs']:
+            rep.add_counts(rep.probes, lv.get('probes'))
 
 
 def run_check(prop, args, profile, rule, signature, nontrivial, crash_mode=False, engine='pipe', family=None,
@@ -545,12 +589,19 @@ def replay(prop, args, rep):
     hs = spec.get('hashseed') or 0
     pool = common.ZygotePool(hashseeds=[hs], width=2)
     r = pool.run([job_of(spec)])[0]
-    census = {'ranks': [tuple(x) for x in obj['census_ranks']]} if obj.get('census_ranks') is not None else None
-    ok = same_failure(prop, spec, r, obj['class'], census=census, key=obj.get('key'))
-    if obj['class'] == 'restart-differs' and census is not None:
+    if obj['class'] == 'restart-differs':
+        # the undisturbed run is re-executed on the tree under test (not taken from the file): the oracle is
+        # "killed + restarted == undisturbed" on ONE tree
+        plain = copy.deepcopy(spec)
+        plain.pop('phases', None)
+        rc = pool.run([job_of(plain)])[0]
+        pc = phase_values(rc)[0]['proc'].get('value', {})
         phs = phase_values(r)
+        p0 = phs[0]['proc'].get('value', {})
         p1 = phs[1]['proc'].get('value', {}) if len(phs) > 1 else {}
-        ok = [tuple(x) for x in (p1.get('ranks') or [])] != census['ranks']
+        ok = p0.get('status') == 'crashed' and p1.get('ranks') != pc.get('ranks')
+    else:
+        ok = same_failure(prop, spec, r, obj['class'], key=obj.get('key'))
     pool.close()
     if ok:
         print(f"REPRODUCED class={obj['class']}")
